@@ -3,6 +3,9 @@ package main
 import (
 	"fmt"
 	"math/rand"
+	"os"
+	"path/filepath"
+	"regexp"
 	"sort"
 	"strconv"
 	"strings"
@@ -42,6 +45,63 @@ var c31Pebble = []piecefunc.Dot{
 	{X: 1685 * c31MiB, Y: 130 * c31MiB}, {X: 2159 * c31MiB, Y: 168 * c31MiB}, {X: 2647 * c31MiB, Y: 230 * c31MiB},
 	{X: 3068 * c31MiB, Y: 300 * c31MiB}, {X: 3863 * c31MiB, Y: 362 * c31MiB}, {X: 5142 * c31MiB, Y: 550 * c31MiB},
 	{X: 5671 * c31MiB, Y: 1000 * c31MiB}, {X: 5671000 * c31MiB, Y: 1000000 * c31MiB},
+}
+
+var c31DotRe = regexp.MustCompile(`X:\s*([^,{}]+),\s*Y:\s*([^,{}]+),`)
+
+func c31Expr(e string) (uint64, bool) {
+	v := uint64(1)
+	for _, f := range strings.Split(e, "*") {
+		f = strings.TrimSpace(f)
+		switch f {
+		case "opt.KiB":
+			v *= c31KiB
+		case "opt.MiB":
+			v *= c31MiB
+		case "opt.GiB":
+			v *= 1024 * c31MiB
+		default:
+			n, err := strconv.ParseUint(f, 10, 64)
+			if err != nil {
+				return 0, false
+			}
+			v *= n
+		}
+	}
+	return v, true
+}
+
+// c31SourceTable reads the adjustCache dot list out of the source file of the repo under test
+// (VERIF_REPO), so that the production table that is checked is the one in the tree; falls
+// back to the replica above (and says so in the stats) when the file cannot be parsed.
+func c31SourceTable(rel string, fallback []piecefunc.Dot) []piecefunc.Dot {
+	repo := os.Getenv("VERIF_REPO")
+	if repo == "" {
+		repo = "/repo"
+	}
+	raw, err := os.ReadFile(filepath.Join(repo, rel))
+	if err == nil {
+		src := string(raw)
+		if i := strings.Index(src, "var adjustCache = piecefunc.NewFunc([]piecefunc.Dot{"); i >= 0 {
+			src = src[i:]
+			if j := strings.Index(src, "\n})"); j >= 0 {
+				var dots []piecefunc.Dot
+				ok := true
+				for _, m := range c31DotRe.FindAllStringSubmatch(src[:j], -1) {
+					x, okx := c31Expr(m[1])
+					y, oky := c31Expr(m[2])
+					ok = ok && okx && oky
+					dots = append(dots, piecefunc.Dot{X: x, Y: y})
+				}
+				if ok && len(dots) > 0 {
+					vu.Stat("prod_table_from_source")
+					return dots
+				}
+			}
+		}
+	}
+	vu.Stat("prod_table_fallback_replica")
+	return fallback
 }
 
 func c31Coord(r *rand.Rand) uint64 {
@@ -154,7 +214,9 @@ func init() {
 	vu.Register("C31", &vu.Prop{
 		Gen: func(r *rand.Rand, n int, tier string, emit func(...string)) {
 			// the two production tables: all dot neighbourhoods + many arguments
-			for _, tbl := range [][]piecefunc.Dot{c31LevelDB, c31Pebble} {
+			for _, tbl := range [][]piecefunc.Dot{
+				c31SourceTable("kvdb/leveldb/leveldb.go", c31LevelDB),
+				c31SourceTable("kvdb/pebble/pebble.go", c31Pebble)} {
 				c31Emit(emit, tbl, c31Args(r, tbl))
 				m := n / 10
 				for i := 0; i < m; i++ {
